@@ -48,7 +48,10 @@ def expand_desc(draw, allow_skip=False):
         "xf_rest": draw(st.sampled_from(XF)),
     }
     if allow_skip and draw(st.integers(0, 3)) == 0:
-        d["skip"] = sorted(draw(st.sets(st.integers(0, 3), min_size=1, max_size=2)))
+        if draw(st.booleans()):
+            d["skip"] = sorted(draw(st.sets(st.integers(0, 3), min_size=1, max_size=2)))
+        else:
+            d["skip_prefixes"] = sorted(draw(st.sets(words("ab", 1, 3), min_size=1, max_size=3)))
     return ["Expand", d]
 
 
@@ -89,7 +92,10 @@ def ver_descs(draw, has_stats, allow_pack=True, atoms_only=False):
     extra = []
     r = draw(st.integers(0, 9))
     if r <= 1:
-        extra.append(["BruteVer", {"minlen": draw(st.integers(1, 3)), "ignore_parent": draw(st.booleans())}])
+        bv = {"minlen": draw(st.sampled_from([1, 2, 2, 3, 99])), "ignore_parent": draw(st.booleans())}
+        if draw(st.booleans()):
+            bv["prefixes"] = sorted(draw(st.sets(words("ab", 1, 3), min_size=1, max_size=4)))
+        extra.append(["BruteVer", bv])
     elif r <= 3 and allow_pack:
         extra.append(
             [
@@ -173,21 +179,28 @@ def call_desc(draw):
 
 @st.composite
 def reverse_template(draw, tier="quick"):
-    """A universe whose only specification needs a reverse rule:
-    the start class C(pa) is not expandable itself, the factory supplies the
-    rule of its parent C(p) = {p} + sum_b C(pb), and C(p) and the siblings are
-    verified by enumeration."""
-    cls = draw(class_desc(allow_prefix=False, tier=tier))
-    alphabet = cls[0]
-    p = draw(words(alphabet, 0, 2))
-    a = draw(st.sampled_from(list(alphabet)))
-    cls[1] = p + a
-    siblings = [p + b for b in alphabet if b != a]
+    """A universe whose only specification needs a reverse (quotient) rule.
+
+    Root C('') = {e} + C(x) + C(y); C(x) cannot be expanded (Expand is switched
+    off for the prefix x and x is a proper prefix of the pattern xx, so Peel
+    does not apply); C(y) expands to C(yx), C(yy), which are verified by
+    enumeration; with expand_verified the verified C(yx) is peeled into
+    {y} x C(x), and C(x) = C(yx) / {y} is the only productive rule for C(x)."""
+    x, y = draw(st.sampled_from([("a", "b"), ("b", "a")]))
+    extra = draw(st.lists(st.text(alphabet=x + y, min_size=1, max_size=3).map(lambda w: x + w), max_size=2, unique=True))
+    pats = sorted(set([x + x] + extra))
+    nstats = draw(st.sampled_from([0, 0, 1, 2]))
+    stats = ["".join(sorted(set(draw(st.text(alphabet="abz", min_size=0, max_size=2))))) for _ in range(nstats)]
+    cls = ["ab", "", pats, 0, stats, 0]
+    xf = draw(st.sampled_from(["id", "id", "dm", "rename"]))
     pack = {
         "initial": [],
         "inferral": [],
-        "expansion": [[["UpFactory", {"mode": 1, "order": draw(st.integers(0, 3)), "as_strategy": False}]]],
-        "ver": [["WordAtom", {}], ["BruteVer", {"minlen": 99, "prefixes": [p] + siblings}]],
+        "expansion": [
+            [["Expand", {"order": draw(st.integers(0, 3)), "skip_prefixes": [x], "xf_atom": xf, "xf_rest": "id"}]],
+            [["Peel", {"atom_last": draw(st.booleans()), "xf_atom": xf, "xf_rest": "id"}]],
+        ],
+        "ver": [["WordAtom", {}], ["BruteVer", {"minlen": 2}]],
         "symmetries": [],
         "iterative": False,
     }
@@ -197,9 +210,10 @@ def reverse_template(draw, tier="quick"):
 @st.composite
 def scenario(draw, tier="quick", dbs=None, finite=False, atoms_only=False, allow_iterative=True, allow_pack=True,
              allow_reverse_template=True, min_stats=0):
-    if allow_reverse_template and not finite and draw(st.integers(0, 7)) == 0:
+    template = allow_reverse_template and not finite and draw(st.integers(0, 7)) == 0
+    if template:
         cls, pack = draw(reverse_template(tier))
-        db = draw(st.sampled_from(["Forest", "Forest", "Forest", "RuleDB", "ForestNoRev"]))
+        db = draw(st.sampled_from([d for d in (dbs or DBS) if d == "Forest"] * 3 + list(dbs or DBS)))
     else:
         cls = draw(class_desc(tier=tier, min_stats=min_stats))
         pack = draw(pack_desc(has_stats=bool(cls[4]), finite=finite, atoms_only=atoms_only,
@@ -210,7 +224,7 @@ def scenario(draw, tier="quick", dbs=None, finite=False, atoms_only=False, allow
         "compressed": draw(st.integers(0, 5)) == 0,
         "pack": pack,
         "db": db,
-        "expand_verified": draw(st.integers(0, 5)) == 0,
+        "expand_verified": True if template else draw(st.integers(0, 5)) == 0,
         "debug": draw(st.integers(0, 19)) == 0,
         "call": draw(call_desc()),
         "clock": draw(clock_script),
